@@ -217,6 +217,7 @@ int main(int argc, char **argv) {
         if (ECB != ecb0) jo_int(&out, "ecb", ECB - ecb0);
         jo_str(&out, "}}\n");
         fwrite(out.b, 1, out.len, stdout);
+        fflush(stdout);   /* a crash in the next call must not lose the lines already produced */
     }
     fflush(stdout);
     return 0;
